@@ -73,9 +73,13 @@ func c01Years(c *ctx) {
 				if k%29 == 0 {
 					// now and then a step of a century or so (across century years), either way
 					steps = append(steps, 36525+k%1000, -(36525 + k%777))
+					if k%58 == 0 {
+						// and a whole 400-year cycle and a bit (from the Gregorian era back into the Julian one and the reverse)
+						steps = append(steps, 146097+k%4999, -(146097 + k%4001))
+					}
 				}
 				for _, n := range steps {
-					if y+n/300 < 1 || y+n/300 > 9998 || (y == 1 && n < 0 && m == 1) {
+					if y+n/300 < 1 || y+n/300 > 9998 || (y == 1 && n < 0 && m == 1) || (n > 100000 && y+n/365 > 9990) || (n < -100000 && y+n/365 < 5) {
 						continue
 					}
 					var x, z *calendar.Lunar
